@@ -3,7 +3,11 @@
 (* entry with HashString and compares.  Run without -coverage (see MpqBuildNames).                      *)
 EXTENDS MC_MpqBuild
 ASSUME TableSize = 4
-ASSUME \A nm \in NameU : LitNameHash(nm) = NameHashDef(nm) /\ LitFileKey(nm) = LibFileKeyDef(nm)
+ASSUME \A nm \in NameU : /\ LitNameHash(nm) = NameHashDef(nm) /\ LitFileKey(nm) = LibFileKeyDef(nm)
+                           /\ LitHet8(nm) = Het8Def(nm) /\ LitBetL3(nm) = BetL3Def(nm) /\ LitBetOaat(nm) = BetOaatDef(nm)
+\* the reader's BET hash is spelling-invariant; the old builder's one-at-a-time value never equals it
+ASSUME \A nm \in NameU : \A sp \in Spellings : LitBetL3(Spell(nm, sp)) = LitBetL3(nm) /\ LitHet8(Spell(nm, sp)) = LitHet8(nm)
+ASSUME \A n1 \in NameU : \A n2 \in NameU : LitBetOaat(n1) # LitBetL3(n2)
 ASSUME PrintT(<<"HASH_TABLES_VERIFIED", Cardinality(NameU)>>)
 HInit == BInitWith({<<F2>>})
 HNext == UNCHANGED bvars
